@@ -34,6 +34,7 @@ down to one `format`/`roundtrip`/`parsestr` line):
 import Golib.Model.C07Enc
 import Golib.Model.C07Fast
 import Golib.Model.C07InPlace
+import Golib.Model.C07FormatBuf
 
 namespace Golib.C07
 open Golib.Proto
@@ -47,12 +48,14 @@ structure DrvCodec where
   width  : Nat
   /-- the decision function of the functional layer with O(1) length tests (`parseFast`) -/
   decQ   : Bytes → Dec
+  /-- the Format function at buffer level, as coded (`c07_format_buffer_eq`: = `format`) -/
+  formatB : Bytes → Option Bytes
 
 def codec? : String → Option DrvCodec
-  | "octal" => some ⟨octalFormat, octalBody, [92], 8, 3, octalDecQ⟩
-  | "hex" => some ⟨hexFormat, hexBody, [92, 120], 16, 2, hexDecQ⟩
-  | "unicode" => some ⟨unicodeFormat, unicodeBody, [92, 85], 16, 8, unicodeDecQ⟩
-  | "utf16" => some ⟨utf16Format, utf16Body, [92, 117], 16, 4, utf16DecQ⟩
+  | "octal" => some ⟨octalFormat, octalBody, [92], 8, 3, octalDecQ, octalFormatB⟩
+  | "hex" => some ⟨hexFormat, hexBody, [92, 120], 16, 2, hexDecQ, hexFormatB⟩
+  | "unicode" => some ⟨unicodeFormat, unicodeBody, [92, 85], 16, 8, unicodeDecQ, unicodeFormatB⟩
+  | "utf16" => some ⟨utf16Format, utf16Body, [92, 117], 16, 4, utf16DecQ, fun s => (utf16FormatB s).map (·.b)⟩
   | _ => none
 
 /-! ### digests for the range operations -/
@@ -112,7 +115,10 @@ def runOp (c : DrvCodec) (t : List String) : String :=
   | ["format", h] | ["formatstr", h] =>
     match unhex h with
     | none => "bad-op"
-    | some b => match c.format b with
+    | some b =>
+      -- up to 256 bytes: the buffer-level program (cursors, indexed stores, appendUint's memory
+      -- operations); above: the value-level formatter it is proved equal to
+      match (if b.length ≤ 256 then c.formatB b else c.format b) with
       | some o => hex o
       | none => "panic"
   | ["parse", h, n] =>
